@@ -12,6 +12,7 @@ import (
 	"strconv"
 	"strings"
 	"sync"
+	"sync/atomic"
 	"time"
 
 	"github.com/protomaps/go-pmtiles/pmtiles"
@@ -476,7 +477,22 @@ type scriptResult struct {
 	dups    []string
 }
 
+// scripts that end with a request that never completes cost a watchdog period each (and leave goroutines
+// behind): after a handful of them the remaining scripts of the run are not executed any more
+var srvHangCount int32
+
 func runScript(cacheMB int, ops []string, gated bool) scriptResult {
+	if atomic.LoadInt32(&srvHangCount) >= 12 {
+		return scriptResult{hangs: 1, notes: []string{"not run: twelve earlier scripts of this run never completed"}, hist: map[string][]*gversion{}}
+	}
+	res := runScriptInner(cacheMB, ops, gated)
+	if res.hangs > 0 {
+		atomic.AddInt32(&srvHangCount, 1)
+	}
+	return res
+}
+
+func runScriptInner(cacheMB int, ops []string, gated bool) scriptResult {
 	pmtiles.VerifStartLog()
 	w := newWorld(cacheMB, gated)
 	var res scriptResult
